@@ -190,8 +190,8 @@ func init() {
 			wg.Wait()
 			ncombos++
 			ngor += g
-			var mism []c05Mismatch
-			var mutated []string
+			mism := []c05Mismatch{}
+			mutated := []string{}
 			for i := range res {
 				nexec += res[i].execs
 				if res[i].mism != nil {
